@@ -22,8 +22,6 @@ Definition batch_take (it0 : item) : option (part * option item) :=
   | IBatch b [] => None
   end.
 
-Definition finishing_kind (x : dev) : Prop := d_kind x = KHandler \/ d_kind x = KProcessor \/ d_kind x = KSink.
-
 Inductive dprim (nw : Z) : (dev -> Prop) -> (dev -> dev) -> Prop :=
 | dp_set_wait a b : dprim nw (fun _ => True) (dev_set_wait nw a b)
 | dp_waiting_ds b : dprim nw (fun _ => True) (t_waiting_ds b)
@@ -32,12 +30,12 @@ Inductive dprim (nw : Z) : (dev -> Prop) -> (dev -> dev) -> Prop :=
 | dp_add_offset z : dprim nw (fun _ => True) (t_add_offset z)
 | dp_reset_offset : dprim nw (fun _ => True) t_reset_offset
 | dp_generated it : dprim nw (fun x => d_out x = None /\ d_kind x = KSource) (t_generated it)
-| dp_finish it : dprim nw (fun x => d_part x = Some it /\ d_out x = None /\ finishing_kind x) (t_finish it)
-| dp_stop_use : dprim nw (fun _ => True) (t_stop_use nw)
-| dp_start_use : dprim nw (fun _ => True) (t_start_use nw)
+| dp_finish it : dprim nw (fun x => d_part x = Some it /\ d_out x = None /\ (d_kind x = KHandler \/ d_kind x = KSink)) (t_finish it)
+| dp_finish_proc it : dprim nw (fun x => d_part x = Some it /\ d_out x = None /\ d_kind x = KProcessor) (t_finish_proc nw it)
+| dp_fail_clear : dprim nw (fun x => d_kind x = KProcessor) (t_fail_clear nw)
 | dp_clear_out : dprim nw (fun _ => True) t_clear_out
 | dp_clear_part :
-    dprim nw (fun x => d_kind x = KProcessor \/ (d_kind x = KBatcher /\ exists b, d_part x = Some (IBatch b []))) t_clear_part
+    dprim nw (fun x => d_kind x = KBatcher /\ exists b, d_part x = Some (IBatch b [])) t_clear_part
 | dp_batch_single rest p :
     dprim nw (fun x => d_kind x = KBatcher /\ d_out x = None /\ d_batch_size x = None /\
                        exists it0, d_part x = Some it0 /\ batch_take it0 = Some (p, rest))
@@ -54,14 +52,15 @@ Inductive dprim (nw : Z) : (dev -> Prop) -> (dev -> dev) -> Prop :=
           (t_batch_more rest b (ps ++ [p]))
 | dp_reserved o : dprim nw (fun _ => True) (t_reserved o)
 | dp_waiting_res b : dprim nw (fun _ => True) (t_waiting_res b)
-| dp_accept it : dprim nw (fun x => d_part x = None /\ d_out x = None /\ d_kind x <> KBuffer /\ d_kind x <> KSink) (t_accept nw it)
+| dp_accept it : dprim nw (fun x => d_part x = None /\ d_out x = None /\ d_kind x <> KBuffer /\ d_kind x <> KSink /\ d_kind x <> KProcessor) (t_accept nw it)
+| dp_accept_proc it : dprim nw (fun x => d_part x = None /\ d_out x = None /\ d_kind x = KProcessor /\ d_shut x = false) (t_accept_proc nw it)
 | dp_accept_buffer it :
     dprim nw (fun x => d_part x = None /\ d_out x = None /\ d_kind x = KBuffer /\ inf_leb (d_level x + item_count it) (d_capacity x) = true)
           (t_accept_buffer nw it)
 | dp_accept_sink it : dprim nw (fun x => d_part x = None /\ d_out x = None /\ d_kind x = KSink) (t_accept_sink nw it)
 | dp_buf_store it : dprim nw (fun x => d_part x = Some it /\ d_kind x = KBuffer) (t_buf_store nw it)
-| dp_buf_pop : dprim nw (fun x => d_kind x = KBuffer) t_buf_pop
-| dp_supplied v : dprim nw (fun _ => True) (t_supplied nw v)
+| dp_buf_pop : dprim nw (fun x => d_kind x = KBuffer) (t_buf_pop nw)
+| dp_supplied v : dprim nw (fun x => d_kind x = KSource) (t_supplied nw v)
 | dp_shutdown : dprim nw (fun x => d_shut x = false /\ d_kind x = KProcessor) (t_shutdown nw)
 | dp_restore : dprim nw (fun x => d_shut x = true /\ d_kind x = KProcessor) (t_restore nw)
 | dp_block b : dprim nw (fun _ => True) (t_block b)
@@ -118,6 +117,15 @@ Proof.
     + exact IH.
 Qed.
 
+Lemma amem_arepl {V} k k' (v : V) m : amem k' (arepl k v m) = amem k' m.
+Proof.
+  unfold amem. rewrite aget_arepl. destruct (Z.eqb_spec k' k) as [->|N]; cbn; [|reflexivity].
+  unfold amem. destruct (aget k m); reflexivity.
+Qed.
+
+Lemma amem_updd w d f d' : amem d' (f_devs (updd w d f)) = amem d' (f_devs w).
+Proof. unfold updd, setd. cbn. apply amem_arepl. Qed.
+
 Lemma getd_updd w d f d' :
   getd (updd w d f) d' = if (d' =? d) && amem d (f_devs w) then f (getd w d) else getd w d'.
 Proof.
@@ -141,7 +149,7 @@ Proof.
   - unfold dev_set_wait. destruct (negb a); [reflexivity|]. destruct (d_wait_since x); [destruct b|]; reflexivity.
   - unfold t_map_slot. destruct slot; reflexivity.
   - unfold t_accept_sink, t_accept, dev_set_wait. cbv zeta. unfold dev_add_value. destruct (item_value it =? 0); reflexivity.
-  - unfold t_buf_pop. destruct (d_buf x) as [|[t it] r]; reflexivity.
+  - unfold t_buf_pop. destruct (d_buf x) as [|[t it] r]; [reflexivity|]. destruct (0 <? _); reflexivity.
   - unfold t_supplied. unfold dev_add_value. destruct (- v =? 0); reflexivity.
 Qed.
 
@@ -234,17 +242,18 @@ Proof.
       apply (R_trans w w'); [apply R_other; assumption|].
       step_dev w' d (t_generated it) (dp_generated nw it);
         [cbn beta; rewrite (getd_other_fields w w' d GD); split; assumption|apply R_sched_pass]. }
-  all: step_dev w d (t_finish it) (dp_finish nw it); [cbn beta; unfold finishing_kind; fold x; rewrite K; repeat split; auto|].
-  - apply R_sched_pass.
+  - (* handler *)
+    step_dev w d (t_finish it) (dp_finish nw it); [cbn beta; fold x; rewrite K; repeat split; auto|apply R_sched_pass].
   - (* processor *)
+    step_dev w d (t_finish_proc nw it) (dp_finish_proc nw it); [cbn beta; fold x; rewrite K; repeat split; auto|].
     eapply R_trans; [apply R_sched_pass|].
-    match goal with |- R ?w0 _ => step_dev w0 d (t_stop_use nw) (dp_stop_use nw); [exact I|] end.
     match goal with |- context[match d_reserved ?y with _ => _ end] => destruct (d_reserved y) end.
     + eapply R_trans; [apply R_emit|]. eapply R_trans; [apply R_run_cbops|].
       match goal with |- context[match d_out ?y with _ => _ end] => destruct (d_out y) end; Rt.
     + eapply R_trans; [apply R_run_cbops|].
       match goal with |- context[match d_out ?y with _ => _ end] => destruct (d_out y) end; Rt.
   - (* sink *)
+    step_dev w d (t_finish it) (dp_finish nw it); [cbn beta; fold x; rewrite K; repeat split; auto|].
     eapply R_trans; [apply R_sched_pass|].
     match goal with |- R ?w0 _ => step_dev w0 d t_clear_out (dp_clear_out nw); [exact I|apply R_signal] end.
 Qed.
@@ -309,7 +318,7 @@ Proof.
   { cbv zeta. eapply R_trans; [apply R_batcher_fill, KB|].
     match goal with |- context[match d_out ?y with _ => _ end] => destruct (d_out y) end; [apply R_sched_pass|Rt]. }
   destruct it as [p|b [|p ps]]; try exact G.
-  step_dev w d t_clear_part (dp_clear_part nw); [cbn beta; fold x; right; split; [exact KB|exists b; exact P]|Rt].
+  step_dev w d t_clear_part (dp_clear_part nw); [cbn beta; fold x; split; [exact KB|exists b; exact P]|Rt].
 Qed.
 
 Lemma R_proc_can_accept w d : R w (fst (proc_can_accept nw w d)).
@@ -331,7 +340,8 @@ Proof. destruct it; cbn; [reflexivity|]. rewrite map_length. reflexivity. Qed.
 (** the guards under which [give] calls [accept] *)
 Definition can_take (x : dev) (it : item) : Prop :=
   d_part x = None /\ d_out x = None /\
-  (d_kind x = KBuffer -> inf_leb (d_level x + item_count it) (d_capacity x) = true).
+  (d_kind x = KBuffer -> inf_leb (d_level x + item_count it) (d_capacity x) = true) /\
+  (d_kind x = KProcessor -> d_shut x = false).
 
 Lemma handler_can_accept_slots x : handler_can_accept x = true -> d_part x = None /\ d_out x = None.
 Proof.
@@ -341,11 +351,12 @@ Qed.
 
 Lemma R_accept fuel w d it : can_take (getd w d) it -> R w (accept fuel nw w d it).
 Proof.
-  intros [P [O B]]. unfold accept. set (it1 := item_add_hist d it). set (x0 := getd w d) in *.
+  intros [P [O [B SH]]]. unfold accept. set (it1 := item_add_hist d it). set (x0 := getd w d) in *.
   match goal with |- context[rec_part ?ww L_RECEIVED d nw it1] => set (w2 := ww) end.
   assert (R2 : R w w2).
   { unfold w2. destruct (d_kind x0) eqn:K.
     all: try (step_dev w d (t_accept nw it1) (dp_accept nw it1); [cbn beta; fold x0; rewrite K; repeat split; auto; discriminate|Rt]).
+    - step_dev w d (t_accept_proc nw it1) (dp_accept_proc nw it1); [cbn beta; fold x0; repeat split; auto|Rt].
     - step_dev w d (t_accept_buffer nw it1) (dp_accept_buffer nw it1);
         [cbn beta; fold x0; repeat split; auto; unfold it1; rewrite item_count_add_hist; apply B; reflexivity|apply R_data].
     - step_dev w d (t_accept_sink nw it1) (dp_accept_sink nw it1); [cbn beta; fold x0; repeat split; auto|Rt]. }
@@ -359,9 +370,6 @@ Proof.
   destruct (negb (okf w4)); [Rt|]. set (x := getd w4 d) in *. destruct (d_out x); [Rt|].
   destruct (d_kind x0) eqn:K; cbv zeta;
     try (destruct (operational x && match d_part x with Some _ => true | None => false end); [apply R_sched_finish|Rt]).
-  - (* processor *)
-    destruct (operational x && match d_part x with Some _ => true | None => false end); [|Rt].
-    step_dev w4 d (t_start_use nw) (dp_start_use nw); [exact I|apply R_sched_finish].
   - (* buffer *)
     destruct (d_part x) as [itb|] eqn:PB; [|Rt].
     step_dev w4 d (t_buf_store nw itb) (dp_buf_store nw itb); [cbn beta; fold x; split; [exact PB|exact K4]|].
@@ -373,17 +381,17 @@ Qed.
 Lemma proc_can_accept_ok w d w1 :
   proc_can_accept nw w d = (w1, true) ->
   handler_can_accept (getd w d) = true /\ d_part (getd w1 d) = None /\ d_out (getd w1 d) = None /\
-  d_kind (getd w1 d) = d_kind (getd w d).
+  d_kind (getd w1 d) = d_kind (getd w d) /\ d_shut (getd w1 d) = d_shut (getd w d).
 Proof.
   unfold proc_can_accept. set (x := getd w d). destruct (handler_can_accept x) eqn:H; cbn [negb]; [|intro E; discriminate].
   destruct (handler_can_accept_slots x H) as [P O].
-  destruct (d_req x) as [rq|]; [|intro E; injection E as <-; auto].
-  destruct (d_reserved x); [intro E; injection E as <-; auto|].
+  destruct (d_req x) as [rq|]; [|intro E; injection E as <-; repeat split; auto].
+  destruct (d_reserved x); [intro E; injection E as <-; repeat split; auto|].
   match goal with |- context[rm_call w ?f] => set (w0 := rm_call w f) end.
   assert (G0 : getd w0 d = x) by (apply getd_other_fields, rm_call_devs).
   match goal with |- context[match snd ?r with _ => _ end] => destruct (snd r) as [i|] end.
   - intro E. injection E as <- _. split; [reflexivity|].
-    rewrite !(getd_updd_field _ w0 d _ d) by reflexivity. rewrite G0. auto.
+    rewrite !(getd_updd_field _ w0 d _ d) by reflexivity. rewrite G0. repeat split; auto.
   - destruct (negb (okf w0)); [intro E; discriminate|]. destruct (d_waiting_res x); intro E; discriminate.
 Qed.
 
@@ -398,24 +406,28 @@ Proof.
     - apply IHl.
     - pose proof (IH w0 d' it0) as X. destruct (give f nw w0 d' it0) as [w1 b1]. cbn [fst] in X.
       eapply R_trans; [exact X|apply IHl]. }
-  assert (ACC : handler_can_accept x = true -> d_kind x <> KBuffer -> R w (accept f nw w d it)).
-  { intros H NB. apply R_accept. destruct (handler_can_accept_slots x H). split; [assumption|split; [assumption|]].
-    intro KK. exfalso. apply NB. exact KK. }
+  assert (ACC : handler_can_accept x = true -> d_kind x <> KBuffer -> d_kind x <> KProcessor -> R w (accept f nw w d it)).
+  { intros H NB NP. apply R_accept. destruct (handler_can_accept_slots x H). split; [assumption|split; [assumption|split]].
+    - intro KK. exfalso. apply NB. exact KK.
+    - intro KK. exfalso. apply NP. exact KK. }
   destruct (d_kind x) eqn:K.
   - destruct (negb (operational x && negb (d_block x))); [Rt|apply TL].
   - destruct (negb (decide (d_decider x) it)); [Rt|]. destruct (negb (operational x && negb (d_block x))); [Rt|apply TL].
-  - destruct (handler_can_accept x) eqn:H; [|Rt]. cbn [fst]. apply ACC; [reflexivity|discriminate].
+  - destruct (handler_can_accept x) eqn:H; [|Rt]. cbn [fst]. apply ACC; [reflexivity|discriminate|discriminate].
   - destruct (proc_can_accept nw w d) as [w1 ok] eqn:PC.
     assert (R1 : R w w1) by (pose proof (R_proc_can_accept w d) as X; rewrite PC in X; exact X).
     destruct ok; [|exact R1]. cbn [fst]. eapply R_trans; [exact R1|]. apply R_accept.
-    destruct (proc_can_accept_ok w d w1 PC) as [_ [P [O KK]]]. split; [assumption|split; [assumption|]].
-    rewrite KK. fold x. rewrite K. discriminate.
+    destruct (proc_can_accept_ok w d w1 PC) as [HC [P [O [KK SS]]]]. split; [assumption|split; [assumption|split]].
+    + rewrite KK. fold x. rewrite K. discriminate.
+    + intros _. rewrite SS. fold x. unfold handler_can_accept, operational in HC. fold x in HC. rewrite K in HC.
+      destruct (d_shut x); [discriminate|reflexivity].
   - destruct (inf_leb (d_level x + item_count it) (d_capacity x) && handler_can_accept x) eqn:H; [|Rt]. cbn [fst].
     apply andb_true_iff in H. destruct H as [HL HC]. apply R_accept.
-    destruct (handler_can_accept_slots x HC). split; [assumption|split; [assumption|intros _; exact HL]].
-  - destruct (handler_can_accept x) eqn:H; [|Rt]. cbn [fst]. apply ACC; [reflexivity|discriminate].
-  - destruct (handler_can_accept x) eqn:H; [|Rt]. cbn [fst]. apply ACC; [reflexivity|discriminate].
-  - destruct (handler_can_accept x) eqn:H; [|Rt]. cbn [fst]. apply ACC; [reflexivity|discriminate].
+    destruct (handler_can_accept_slots x HC). split; [assumption|split; [assumption|split; [intros _; exact HL|]]].
+    fold x. rewrite K. discriminate.
+  - destruct (handler_can_accept x) eqn:H; [|Rt]. cbn [fst]. apply ACC; [reflexivity|discriminate|discriminate].
+  - destruct (handler_can_accept x) eqn:H; [|Rt]. cbn [fst]. apply ACC; [reflexivity|discriminate|discriminate].
+  - destruct (handler_can_accept x) eqn:H; [|Rt]. cbn [fst]. apply ACC; [reflexivity|discriminate|discriminate].
   - destruct (d_block x); [Rt|]. destruct (aget (d_group x) (f_groups w)); [apply IH|Rt].
   - destruct (negb (operational x && negb (d_block x))); [Rt|apply TL].
   - destruct (rev (item_gpath it)) as [|gp rest]; [apply R_fail|].
@@ -471,7 +483,7 @@ Qed.
 Lemma R_fail_proc w d : R w (fail nw w d).
 Proof.
   unfold fail. set (x := getd w d). destruct (is_processor x) eqn:IP; cbn [negb]; [|Rt].
-  step_dev w d t_clear_part (dp_clear_part nw); [left; apply is_processor_kind, IP|].
+  step_dev w d (t_fail_clear nw) (dp_fail_clear nw); [apply is_processor_kind, IP|].
   eapply R_trans; [apply R_release_reserved|]. eapply R_trans; [apply R_data|apply R_shutdown].
 Qed.
 
@@ -488,10 +500,7 @@ Proof.
                       | None, None => signal fuel nw true w1' d
                       | None, Some _ => w1' end)).
   { destruct (d_out x); [apply R_sched_pass|]. destruct (d_part x); [Rt|apply R_signal]. }
-  eapply R_trans; [exact R2|].
-  destruct (d_part x).
-  - match goal with |- R ?w0 _ => step_dev w0 d (t_start_use nw) (dp_start_use nw); [exact I|apply R_run_cbops] end.
-  - apply R_run_cbops.
+  eapply R_trans; [exact R2|]. apply R_run_cbops.
 Qed.
 
 Lemma R_buffer_loop n fuel : forall w d, d_kind (getd w d) = KBuffer -> R w (buffer_loop n fuel nw w d).
@@ -502,10 +511,10 @@ Proof.
   pose proof (R_try_downstream fuel w d it) as X. destruct (try_downstream fuel nw w d it) as [w1 ok] eqn:TD. cbn [fst] in X.
   destruct ok; [|exact X]. eapply R_trans; [exact X|].
   assert (K1 : d_kind (getd w1 d) = KBuffer) by (rewrite (R_kind w w1 X d); exact KB).
-  step_dev w1 d t_buf_pop (dp_buf_pop nw); [exact K1|]. eapply R_trans; [apply R_data|]. apply IH.
-  match goal with |- d_kind (getd ?ww d) = _ => rewrite (getd_other_fields (updd w1 d t_buf_pop) ww d eq_refl) end.
-  rewrite (getd_updd_field d_kind w1 d t_buf_pop d); [exact K1|].
-  intro y. unfold t_buf_pop. destruct (d_buf y) as [|[? ?] ?]; reflexivity.
+  step_dev w1 d (t_buf_pop nw) (dp_buf_pop nw); [exact K1|]. eapply R_trans; [apply R_data|]. apply IH.
+  match goal with |- d_kind (getd ?ww d) = _ => rewrite (getd_other_fields (updd w1 d (t_buf_pop nw)) ww d eq_refl) end.
+  rewrite (getd_updd_field d_kind w1 d (t_buf_pop nw) d); [exact K1|].
+  intro y. unfold t_buf_pop. destruct (d_buf y) as [|[? ?] ?]; [reflexivity|]. destruct (0 <? _); reflexivity.
 Qed.
 
 Lemma R_pass_part fuel w d : R w (pass_part fuel nw w d).
@@ -523,7 +532,7 @@ Proof.
     match goal with |- context[if negb ?c then _ else _] => destruct (negb c) end; [Rt|].
     pose proof (R_handler_pass fuel w d) as X. destruct (handler_pass fuel nw w d) as [w1 ok]. cbn [fst] in X.
     destruct ok; [|exact X]. eapply R_trans; [exact X|].
-    step_dev w1 d (t_supplied nw (item_value it)) (dp_supplied nw (item_value it)); [exact I|].
+    step_dev w1 d (t_supplied nw (item_value it)) (dp_supplied nw (item_value it)); [cbn beta; rewrite (R_kind w w1 X d); exact K|].
     eapply R_trans; [apply R_data|apply R_sched_finish].
   - (* batcher *)
     pose proof (R_handler_pass fuel w d) as X. destruct (handler_pass fuel nw w d) as [w1 ok]. cbn [fst] in X.
